@@ -15,6 +15,7 @@ mod printing;
 mod timestamps;
 mod summary;
 mod languages;
+mod codepages;
 
 use std::collections::HashMap;
 
@@ -68,6 +69,7 @@ fn main() {
         "timestamps" => timestamps::main(&args),
         "summary" => summary::main(&args),
         "languages" => languages::main(&args),
+        "codepages" => codepages::main(&args),
         "summary-random" => summary::random_main(&args),
         "repr" => {
             // representability facts (reference encoder) for the characters the bounded models use
